@@ -243,6 +243,12 @@ type solverDef struct {
 var solvers = []solverDef{
 	{"z3-new", func(t int) []string { return []string{"z3-new", fmt.Sprintf("-T:%d", t), "-smt2"} }},
 	{"z3", func(t int) []string { return []string{"z3", fmt.Sprintf("-T:%d", t), "-smt2"} }},
+	// the same solver with other random seeds: quantifier-heavy goals that
+	// the default seed misses are often closed by another one (an unsat
+	// answer is sound whatever the seed)
+	{"z3-new-s1", func(t int) []string { return []string{"z3-new", "smt.random_seed=1", fmt.Sprintf("-T:%d", t), "-smt2"} }},
+	{"z3-new-s2", func(t int) []string { return []string{"z3-new", "smt.random_seed=2", fmt.Sprintf("-T:%d", t), "-smt2"} }},
+	{"z3-new-nomb", func(t int) []string { return []string{"z3-new", "smt.mbqi=false", fmt.Sprintf("-T:%d", t), "-smt2"} }},
 	{"cvc5", func(t int) []string {
 		return []string{"cvc5", fmt.Sprintf("--tlimit=%d", t*1000), "--lang=smt2", "--produce-models"}
 	}},
